@@ -20,7 +20,7 @@ def runCase : CaseFn := fun c => Id.run do
     let obs := words obsS
     match ws.head? with
     | some k =>
-      if k == "stop" || k == "caller" || k == "markconfirmed" then
+      if k == "stop" || k == "caller" || k == "markconfirmed" || k == "call" then
         match obs with
         | "HANG" :: label :: _ =>
           out := out.push s!"ORACLE-FAIL C17 case {c.num} line {ln}: shape={label} `{opS}` did not return within the deadline ({" ".intercalate c.header}); goroutine dump written by the harness"
